@@ -1,11 +1,11 @@
 package core
 
 import (
-	"regexp"
 	"encoding/json"
 	"fmt"
 	"os"
 	"path/filepath"
+	"regexp"
 	"sort"
 	"strconv"
 	"strings"
